@@ -10,6 +10,19 @@ Open Scope N_scope.
 Definition plain (b : N) : bool := negb (b =? 34) && negb (b =? 92).
 Definition numtext (t : list N) : Prop := t <> [] /\ forallb isnumc t = true.
 
+(* jsonNakedNum (parseNumber, decimal.go:349-387) refuses exactly one class of the number texts the
+   encoder writes: a bare decimal integer literal worth 2^63 or more, under SignedInteger without PreferFloat
+   (chkOvf.Uint2Int -> ParseInt error).  The encoder writes such a literal not only for an unsigned integer
+   but also for a FLOAT: jsonFloatStrconvFmtPrec64/32 (json.base.go:510-539) force one fractional digit only
+   below 2^52 / 2^23 (noFrac64: exp < 52), so an integral float64 in [2^52, 1e21) is written with all its
+   integer digits and nothing else; those in [2^63, 2^64) fall in the refused class (known finding F15-1:
+   W_json_float_bareint_refuted).  [num_read_ok D t]: the text t is not in that class under D. *)
+Definition num_read_ok (D : dopts) (t : list N) : bool :=
+  negb (signedInteger D) || preferFloat D ||
+  (let neg := match t with c :: _ => c =? 45 | [] => false end in
+   let '(f, ok) := Verif.C09.Model.parseUint64_simple (if neg then tl t else t) in
+   negb ok || neg || (f <? 2 ^ 63)%Z).
+
 Record leaf_laws (L : leaf) : Prop := mklaws {
   (* a string literal without quote or backslash decodes to itself and ends at the quote *)
   ll_unq_plain : forall p rest, forallb plain p = true -> unquote L (p ++ 34 :: rest) = Ok (p, rest);
@@ -21,14 +34,23 @@ Record leaf_laws (L : leaf) : Prop := mklaws {
   (* float texts consist of number characters *)
   ll_f64_num : forall b, f64special b = false -> numtext (fmt_f64 L b);
   ll_f32_num : forall b, f32special b = false -> numtext (fmt_f32 L b);
-  (* ... and are accepted back by the number reader, under every option vector *)
-  ll_f64_ok : forall D b, f64special b = false -> b < 2 ^ 64 -> exists i, naked_num L D (fmt_f64 L b) = Ok i;
-  ll_f32_ok : forall D b, f32special b = false -> b < 2 ^ 32 -> exists i, naked_num L D (fmt_f32 L b) = Ok i;
+  (* ... and are accepted back by the number reader, under every option vector that does not refuse the text
+     as an integer of 2^63 or more (the unguarded statement is false of strconv: full_float_law below) *)
+  ll_f64_ok : forall D b, f64special b = false -> b < 2 ^ 64 -> num_read_ok D (fmt_f64 L b) = true ->
+              exists i, naked_num L D (fmt_f64 L b) = Ok i;
+  ll_f32_ok : forall D b, f32special b = false -> b < 2 ^ 32 -> num_read_ok D (fmt_f32 L b) = true ->
+              exists i, naked_num L D (fmt_f32 L b) = Ok i;
   (* decimal integers: digits only; accepted back (an unsigned value >= 2^63 under SignedInteger is not) *)
   ll_udig_num : forall u, u < 2 ^ 64 -> udigits u <> [] /\ forallb (fun c => (48 <=? c) && (c <=? 57)) (udigits u) = true;
   ll_int_ok : forall D z, (- 2 ^ 63 <= z < 2 ^ 63)%Z -> exists i, naked_num L D (int_text z) = Ok i;
   ll_uint_ok : forall D u, u < 2 ^ 64 -> (signedInteger D = false \/ preferFloat D = true \/ u < 2 ^ 63) ->
                exists i, naked_num L D (udigits u) = Ok i }.
+
+(* the statement one would like (every finite float the encoder wrote is read back by the number reader under
+   EVERY decoder option vector): FALSE of the implementation, refuted on the model with the observed texts in
+   Wire/JsonLeaf.v (float_bareint_refuted) *)
+Definition full_float_law (L : leaf) : Prop :=
+  forall D b, f64special b = false -> b < 2 ^ 64 -> exists i, naked_num L D (fmt_f64 L b) = Ok i.
 
 (* ------------------------------------------------------------------ *)
 (* tokenizer facts                                                     *)
@@ -261,14 +283,15 @@ Fixpoint keys_fresh (o : eopts) (D : dopts) (seen : list item) (l : list (item *
 (* ranges the Encoder guarantees; no tags/extensions; bytes as base64 (the "array" layout is outside
    this theorem); containers are not map keys (Go cannot hash them); keys pairwise different once decoded
    (a repeated key takes the unmodelled decode-into-old-value path); an unsigned value >= 2^63 is not
-   read back under SignedInteger (refused: overflow) *)
+   read back under SignedInteger (refused: overflow), and neither is a float whose text is a bare integer
+   literal of that size ([num_read_ok]) *)
 Fixpoint jwf (o : eopts) (D : dopts) (key : bool) (i : item) : Prop :=
   match i with
   | INil | IBool _ | ITime _ _ => True
   | IInt z => (- 2 ^ 63 <= z < 2 ^ 63)%Z
   | IUint n => n < 2 ^ 64 /\ (signedInteger D = false \/ preferFloat D = true \/ n < 2 ^ 63)
-  | IF32 b => b < 2 ^ 32
-  | IF64 b => b < 2 ^ 64
+  | IF32 b => b < 2 ^ 32 /\ (f32special b = false -> num_read_ok D (fmt_f32 L b) = true)
+  | IF64 b => b < 2 ^ 64 /\ (f64special b = false -> num_read_ok D (fmt_f64 L b) = true)
   | IStr _ => stringToRaw o && bytesArr o = false
   | IBytes _ => bytesArr o = false
   | IArr l => key = false /\ (fix go l := match l with [] => True | x :: r => jwf o D false x /\ go r end) l
@@ -385,10 +408,10 @@ Proof.
     right; right. split; [apply int_numtext, Hw|apply (ll_int_ok L LL), Hw].
   - destruct Hw as [Hn Hg]. apply qwrap_ok; [apply numtext_plain, udig_numtext, Hn|].
     right; right. split; [apply udig_numtext, Hn|apply (ll_uint_ok L LL); assumption].
-  - destruct (f32special bits) eqn:E; [exact I|]. apply qwrap_ok; [apply numtext_plain, (ll_f32_num L LL), E|].
-    right; right. split; [apply (ll_f32_num L LL), E|apply (ll_f32_ok L LL); assumption].
-  - destruct (f64special bits) eqn:E; [exact I|]. apply qwrap_ok; [apply numtext_plain, (ll_f64_num L LL), E|].
-    right; right. split; [apply (ll_f64_num L LL), E|apply (ll_f64_ok L LL); assumption].
+  - destruct Hw as [Hb Hg]. destruct (f32special bits) eqn:E; [exact I|]. apply qwrap_ok; [apply numtext_plain, (ll_f32_num L LL), E|].
+    right; right. split; [apply (ll_f32_num L LL), E|apply (ll_f32_ok L LL); [exact E|exact Hb|exact (Hg eq_refl)]].
+  - destruct Hw as [Hb Hg]. destruct (f64special bits) eqn:E; [exact I|]. apply qwrap_ok; [apply numtext_plain, (ll_f64_num L LL), E|].
+    right; right. split; [apply (ll_f64_num L LL), E|apply (ll_f64_ok L LL); [exact E|exact Hb|exact (Hg eq_refl)]].
   - destruct (stringToRaw o) eqn:E1; cbn in Hw.
     + rewrite Hw. apply plain_ok, b64_plain.
     + intros tl. apply (ll_unq_quote L LL).
@@ -434,6 +457,7 @@ Proof.
   - destruct (key && smap D); [reflexivity|]. unfold rd_quoted.
     destruct (_ && _ && _ && _); [|reflexivity]. unfold quoted_key.
     destruct (eqbl d t_true); [reflexivity|]. destruct (eqbl d t_false); [reflexivity|].
+    destruct (Verif.C09.Model.jsonIsNumberLiteral d); [|reflexivity].
     destruct (naked_num L D d) eqn:E; try reflexivity. eapply naked_num_scalar; eauto.
   - unfold rd_bare. destruct (key && smap D); [reflexivity|].
     destruct (eqbl t t_true); [reflexivity|]. destruct (eqbl t t_false); [reflexivity|].
